@@ -19,6 +19,10 @@ func init() {
 		ruleDef{"C11.R6", c11r6},
 		ruleDef{"C11.R7", c11r7},
 		ruleDef{"C11.R9", func(r *R) { lockNotReentered(r, "C11.R9", false) }},
+		// a lock leaked on an error path parks every later handshake (GetCertificate) or request forever
+		ruleDef{"C11.R10", func(r *R) {
+			locksReleased(r, "C11.R10", "pkg/certwatcher", "pkg/metadata", "pkg/proxyserver", "pkg/hack", "pkg/fingerprint", "pkg/reverseproxy")
+		}},
 	)
 }
 
